@@ -118,7 +118,10 @@ def swap_kernel(chk, it):
         chk.obligation('FUNC/payout-is-the-rounded-down-share/' + name, lem,
                        z3.And((I(rw) + 1) * (I(L) + I(dl)) * 1000 > 995 * I(dl) * (I(R) + I(dr)),
                               (I(lw) + 1) * (I(R) + I(dr)) * 1000 > 995 * I(dr) * (I(L) + I(dl))), inputs, replay=rp, arith='int')
-        chk.cover_int('two-sided swap with non-zero payouts/' + name, list(s.pc) + [z3.UGT(lw, 5), z3.UGT(rw, 5)])
+        # reachability witness substituted into the query (a linear check instead of a non-linear search)
+        pin = [(L, bv(1000, 128)), (R, bv(2000, 128)), (dl, bv(500, 128)), (dr, bv(700, 128))]
+        chk.cover_int('two-sided swap with non-zero payouts/' + name,
+                      [z3.simplify(z3.substitute(c_, *pin)) for c_ in list(s.pc) + [z3.UGT(lw, 5), z3.UGT(rw, 5)]])
     if not n:
         raise Inconclusive('swap_many has no returning path')
 
@@ -157,7 +160,9 @@ def deposit_kernel(chk, it):
         chk.obligation('FUNC/liquidity-minted-in-proportion-rounded-down/' + name, list(s.pc),
                        I(delta) * I(delta) * I(L) * I(R) <= I(LQ) * I(LQ) * I(dl) * I(dr), inputs, replay=rp, arith='int',
                        bound='delta^2 / liqs^2 <= (lefts * rights) / (pool lefts * pool rights)')
-        chk.cover_int('deposit that mints liquidity/' + name, list(s.pc) + [z3.UGT(delta, 5)])
+        pin = [(L, bv(1000, 128)), (R, bv(2000, 128)), (LQ, bv(1000, 128)), (dl, bv(500, 128)), (dr, bv(1000, 128))]
+        chk.cover_int('deposit that mints liquidity/' + name,
+                      [z3.simplify(z3.substitute(c_, *pin)) for c_ in list(s.pc) + [z3.UGT(delta, 5)]])
     if not n:
         raise Inconclusive('deposit has no returning path')
     # ---- first deposit into an empty pool
@@ -190,6 +195,7 @@ def withdraw_kernel(chk, it):
     outs = it.exec_fn(st, melstructs_fn(it, 'withdraw'), [Ptr(cell), w])
     inputs = dict(p, burnt_liqs=w)
     n = 0
+    cover_alts = []
     for idx, (s, o) in enumerate(outs):
         rp = lambda mo: replay_pool(chk, mo, inputs, 'withdraw', 'burnt_liqs', None)
         if isinstance(o, Panic):
@@ -214,10 +220,15 @@ def withdraw_kernel(chk, it):
                        bound='a built-in pool keeps 10^9 liquidity owned by nobody, so it is never withdrawn completely')
         # reachability witness handed to the solver (a ground check; finding one from scratch is a non-linear search that takes
         # the better part of the per-query cap on a loaded machine)
-        pin = [L == 1000, R == 2000, LQ == 100, w == 10]
-        chk.cover_int('partial withdrawal with non-zero payout/' + name, list(s.pc) + [z3.ULT(w, LQ), z3.UGT(lo, 5), z3.UGT(ro, 5)] + pin)
+        # (substituted, not asserted: the query the solver sees is linear)
+        pin = [(L, bv(1000, 128)), (R, bv(2000, 128)), (LQ, bv(100, 128)), (w, bv(10, 128))]
+        cover_alts.append([z3.simplify(z3.substitute(c_, *pin)) for c_ in list(s.pc) + [z3.ULT(w, LQ), z3.UGT(lo, 5), z3.UGT(ro, 5)]])
     if not n:
         raise Inconclusive('withdraw has no returning path')
+    # vacuity: SOME returning path is a partial withdrawal with non-zero payouts (how the returning paths are split between
+    # "everything withdrawn" and "part withdrawn" depends on where the explorer joins)
+    from props.c15 import _cover_any_int
+    _cover_any_int(chk, 'partial withdrawal with non-zero payout/withdraw', cover_alts)
 
 
 def builtins_kernel(chk, it):
